@@ -419,11 +419,96 @@ class Reorder(_SupercellConcrete, Contract):
                 yield sup.copy(), (mp,)
 
 
-C28_CONTRACTS = [SetOccC, IMul, SaneC, Reorder]
+class FillPeriodic(_SupercellConcrete, Contract):
+    """Supercell.fillperiodic: the loop and its calls to setocc are the real code; the expressions that pick WHICH sites
+    (dictionary of atom tuples, search through the Wyckoff lists, the two-generator comprehension over cells x atoms) are
+    outside the encoder subset and are abstracted: the list of selected sites is a ghost parameter g_sites about which only
+    the range 0 <= site < len(occ) is assumed (it follows from the constructor: indexatom / Wyckofflist hold atom indices
+    0..N-1, and 0 <= n < size, 0 <= i < N give 0 <= n N + i < N size = len(occ), proved below as a lemma).  Which sites a
+    fill selects is therefore NOT part of what is proved here (run-time contract); what is proved is that ANY such fill
+    preserves the invariant, sets exactly the selected sites to the species and leaves every other site alone."""
+    relpath, qualname = 'onsager/supercell.py', 'Supercell.fillperiodic'
+    self_shape = SELF
+    params = {'ci': ('tuple', ['int', 'int']), 'Wyckoff': 'bool'}
+    ghost_params = {'g_absent': 'bool', 'g_sites': 'seq_int'}
+    modifies = ('occ', 'chemorder', 'g_pos')
+    callees = {'setocc': SetOcc()}
+    min_obligations = 10
+    SITES = '[n * self.N + i for n in range(self.size) for i in indlist]'
+    abstractions = {
+        'ci not in self.indexatom': ('expr', lambda s: s.v['g_absent']),
+        'self.indexatom[ci]': ('int', lambda v, s: And(v >= 0, v < s.self.N)),
+        'next((nset for nset in self.Wyckofflist if ind in nset), None) if Wyckoff else (ind,)':
+            ('seq_int', lambda v, s: And(v.len >= 0, lambda: forall(0, v.len, lambda k: And(v[k] >= 0, v[k] < s.self.N)))),
+        SITES: ('expr', lambda s: s.v['g_sites']),
+    }
+    ABSTRACTED = ['`ci not in self.indexatom` -> ghost boolean (IndexError is specified by it)',
+                  '`self.indexatom[ci]` -> an atom index in [0, N)', 'the Wyckoff-set lookup -> a list of atom indices in [0, N)',
+                  'the cells x atoms comprehension -> ghost list g_sites of site indices in [0, len(occ)) (range proved as lemma site-index-in-range)']
+
+    def pre(self, s):
+        c, sites = s.v['ci'][0], s.v['g_sites']
+        return And(WFall(s.self), s.self.N >= 1, s.self.size >= 0, s.self.N * s.self.size == s.self.occ.len,
+                   sites.len >= 0, lambda: forall(0, sites.len, lambda k: And(sites[k] >= 0, sites[k] < s.self.occ.len)),
+                   # keys of indexatom are (chemistry, index) of the crystal: a present key names a chemistry of the crystal
+                   Implies(Not(s.v['g_absent']), And(c >= 0, c < s.self.crys.Nchem)))
+
+    raises = {'IndexError': lambda s: s.v['g_absent']}
+
+    def lemma_obligations(self, s):
+        n, i, N, size = z3.Ints('fp_n fp_i fp_N fp_size')
+        return [('site-index-in-range', [n >= 0, n < size, i >= 0, i < N, N >= 1], z3.And(n * N + i >= 0, n * N + i < N * size))]
+
+    @staticmethod
+    def filled(cur, k, old):
+        o, c, sites = old.self, old.v['ci'][0], old.v['g_sites']
+        return And(cur.self.occ.len == o.occ.len, lambda: forall(0, o.occ.len, lambda x: cur.self.occ[x] == ite(
+            exists(0, k, lambda j: sites[j] == x, 'fpe'), c, lambda: o.occ[x]), 'fpx'))
+
+    def inv0(cur, k, old):
+        return {'WF': WFall(cur.self), 'shape': And(cur.self.Nchem == old.self.Nchem, cur.self.crys.Nchem == old.self.crys.Nchem),
+                'selected-sites-so-far-hold-the-species-others-untouched': FillPeriodic.filled(cur, k, old)}
+
+    loops = {0: inv0}
+
+    def post(self, old, new, result):
+        return {**{'WF-' + k: v for k, v in WF(new.self).items()},
+                'selected-sites-hold-the-species-others-untouched': FillPeriodic.filled(new, old.v['g_sites'].len, old)}
+
+    # concrete side
+    def ghost_params_concrete(self, obj, args):
+        ci, wy = args
+        absent = tuple(ci) not in obj.indexatom
+        sites = []
+        if not absent:
+            ind = obj.indexatom[tuple(ci)]
+            indlist = next((nset for nset in obj.Wyckofflist if ind in nset), None) if wy else (ind,)
+            sites = [n * obj.N + i for n in range(obj.size) for i in indlist]
+        return {'g_absent': absent, 'g_sites': CSeq(sites)}
+
+    def build(self, conc):
+        # the ghost selection of a solver model cannot be imposed on a real supercell (it is what the abstracted expressions compute):
+        # the real object is built from the model's occupation and the fill is asked for the model's species where that atom exists
+        sup = self.build_self(conc.self)
+        if sup is None: return None, None
+        c0 = conc.v['ci'][0]
+        keys = [k for k in sup.indexatom if k[0] == c0] or list(sup.indexatom)
+        return sup, (keys[-1], bool(conc.v['Wyckoff']))
+
+    def concrete_states(self, rng, tier):
+        for sup in self.small_supercells(rng, tier):
+            for ci in list(sup.indexatom)[:2] + [(7, 0)]:
+                for wy in (True, False):
+                    yield sup.copy(), (ci, wy)
+
+
+C28_CONTRACTS = [SetOccC, IMul, SaneC, Reorder, FillPeriodic]
 ASSUMPTIONS = [
     'python ints are mathematical integers; numpy integer arrays do not overflow',
     'inner lists of chemorder are distinct objects (no aliasing between rows): checked syntactically -- every assignment to self.chemorder in class Supercell must be a list comprehension / fresh list / the saved previous value',
     'reorder: the exit value of the ghost field g_pos is chosen (the listed-clause of WF is stated existentially there); WF with the ghost follows by choice',
+    'fillperiodic: three expressions outside the encoder subset are abstracted (the rest -- the loop, the calls to setocc -- is the real code): ' + '; '.join(FillPeriodic.ABSTRACTED)
+    + '; class invariant assumed at entry: len(occ) = N * size, keys of indexatom are (chemistry, index) pairs of the crystal',
 ]
 TRUSTED = [
     'pyvc encoder model of CPython list.index/pop/append, set add/in, numpy 1-D integer array load/store/copy, list comprehension as map, zip of equal-length lists',
@@ -434,7 +519,8 @@ TRUSTED = [
     'used (written out in place of the array variable), and instantiating the proved T at each row of `mapping`',
 ]
 GAPS = [
-    'Supercell.fillperiodic, __setitem__, __mul__/__rmul__, copy, POSCAR, POSCAR_occ are outside the encoder subset (dict of tuple keys, generator next(), two-generator comprehension, string formatting/parsing, deepcopy): they are covered only by run-time contracts over bounded histories on real objects (level B, not proved). fillperiodic/POSCAR_occ mutate state only through setocc (proved), which the history check exercises.',
+    'Supercell.__setitem__, __mul__/__rmul__, copy, POSCAR, POSCAR_occ are outside the encoder subset (position lookup, string formatting/parsing, deepcopy): they are covered only by run-time contracts over bounded histories on real objects (level B, not proved). POSCAR_occ mutates state only through setocc (proved), which the history check exercises.',
+    'fillperiodic is proved to preserve the invariant and to set exactly the selected sites for ANY selection in range; WHICH sites it selects (the Wyckoff lookup and the cells x atoms enumeration) is abstracted and only checked at run time',
 ]
 
 
